@@ -197,7 +197,7 @@ def approx_eq(a, b, rtol=None):
             return False
         if math.isinf(a) or math.isinf(b):
             return a == b
-        return abs(a - b) <= rtol * max(abs(a), abs(b)) + 1e-12 * rtol / RTOL \
+        return abs(a - b) <= rtol * max(abs(a), abs(b)) + 1e-12 * rtol / 1e-9 \
             if max(abs(a), abs(b)) > 1e-300 else True
     try:
         return bool(a == b)
@@ -372,7 +372,9 @@ _TMPFILES = []
 
 
 def run_job(job):
+    global RTOL
     out = {}
+    RTOL = job.get('rtol', 1e-9)
     env = clause_env(job['verif_root'])
     try:
         args = {n: build(job['args'][n]) for n in job['order']}
@@ -418,8 +420,11 @@ def run_job(job):
                 recv = call_args.pop('self')
                 meth = target.split(':')[1].split('.')[-1]
                 if meth == '__init__':
+                    # initialise the receiver itself, so that `self` in the
+                    # postcondition is the constructed object
                     cls = _import_target(target.rsplit('.', 1)[0])
-                    result = cls(**call_args)
+                    cls.__init__(recv, **call_args)
+                    result = None
                 else:
                     result = getattr(recv, meth)(**call_args)
             else:
